@@ -25,7 +25,8 @@ RACE_SECONDS = {"quick": (4.0, 2.5), "thorough": (45.0, 15.0)}     # (all module
 RACE_SEEDS = {"quick": 1, "thorough": 3}
 RULE = ("static: one table row per read/write site of every package-level variable of api, core/base, core/stat, core/flow, "
         "core/isolation, core/hotspot, core/circuitbreaker, core/system, core/outlier (object classes G / G[*] / G[*][*], "
-        "aliases followed through package-local calls), one row per plain use of a sync/atomic field, per nested lock "
+        "aliases followed through package-local calls) and of every data field of a struct with a mutex field accessed through "
+        "its method receiver (LruCacheMap, Recycler, Retryer, LeapArray, ...), one row per plain use of a sync/atomic field, per nested lock "
         "acquisition and per slot phase; every (live write row, live row of the same class) pair is evaluated by the kernel. "
         "dynamic: race15 under the race detector, 6 traffic goroutines + 5-6 rule churners + 2 readers, randomized yields at the "
         "verif hooks; an evaluation = one oracle-checked request (sw / sw2 / fixedB / fixedP); non-trivial = a request on `sw` "
